@@ -19,6 +19,7 @@ RULE = (
     "problem is rebuilt through the public API (mesh.copy()+Rotate/Symmetry/Translate, law with Q-rotated axes, Q-rotated "
     "values) and both are solved. Non-trivial = rotation angle not a multiple of 90 deg (or a reflection) and a non-zero "
     "load; distinct = sha1 of the case."
+    ' Round 9: the elastic cases also compare Wdef_e, Evm and ZZ1; a third of the members take two dynamic steps; closed-form shear of a cantilever; beam_units enumerates dimension x type x theory x member length 1e-3..1e5.'
 )
 ASSUMPTIONS = [
     "metamorphic oracle: u'(node) = Q u(node), scalars/energies/von Mises unchanged; beams: response in the member's own "
@@ -488,3 +489,48 @@ def check_hyper(case, rec):
 
 
 SUBS.append(Sub("hyperelastic", check_hyper, gen=hyper_cases, quick=60, thorough=400, shards=6))
+
+
+# ------------------------------------------------------------------------------------------
+# (added by the lead, round 9) members in other length units (1e-3 ... 1e5, sections and loads scaled with them) at a generic
+# inclination: same response in the member's own axes as the member laid along x - the elements of a member are found through
+# the geometric line they were meshed on, whatever the size of the coordinates
+
+
+def enum_beam_units(tier):
+    for dim in (2, 3):
+        for et in ("SEG2", "SEG3"):
+            for timo in (False, True):
+                for L in (1e-3, 1.0, 1e3, 1e5):
+                    yield dict(dim=dim, elemType=et, timoshenko=timo, L=L)
+
+
+def check_beam_units(case, rec):
+    L = float(case["L"])
+    dim = case["dim"]
+    a = np.deg2rad(33.7)
+    d = np.array([np.cos(a), np.sin(a), 0.0]) * L if dim == 2 else np.array([0.48, 0.6, 0.64]) * L
+    spec = dict(dim=dim, elemType=case["elemType"], p1=[0.2 * L, -0.1 * L, 0.0 if dim == 2 else 0.3 * L], d=[float(x) for x in d], ne=4,
+                b=0.04 * L, h=0.03 * L, E=90.0, v=0.2, timoshenko=bool(case["timoshenko"]), yAxis=None, grade=0.0)
+    kind = "timo" if spec["timoshenko"] else "eb"
+    sig = dict(elemType=spec["elemType"], dim=dim, kind=kind, L=L)
+    rec.label(f"beam_units:{kind}:{dim}d", f"L:{L:g}")
+    F = [0.01 * L * L, -0.02 * L * L, 0.015 * L * L if dim == 3 else 0.0]  # forces ~ E x area: strains of the order of 1e-2 / E
+    Mo = [0.0, 0.0, 0.0]
+    # every element of the member carries its tag (else it has no stiffness)
+    simu, mesh, beam, _ = gb.build_member(spec)
+    g = mesh.Get_list_groupElem(1)[0]
+    rec.require(len(g.Get_Elements_Tag(beam.name)) == g.Ne, "member_elements_tagged",
+                f"{kind} {dim}D member of length {L:g}: {len(g.Get_Elements_Tag(beam.name))} of its {g.Ne} elements carry the member's tag", **sig)
+    ul, rl, _ = _tip_response(spec, F, Mo)
+    ref = dict(spec)
+    ref.update(p1=[0.0, 0.0, 0.0], d=[L, 0.0, 0.0])
+    ul0, rl0, _ = _tip_response(ref, F, Mo)
+    scale_u = max(float(np.abs(ul0).max()), float(np.abs(rl0).max()) * L) + 1e-300
+    rec.close(ul - ul0, scale_u, 1e-7, "beam_units_own_axes_u", f"{kind} {dim}D L={L:g}: tip translation in own axes {ul} vs member along x {ul0}", **sig)
+    rec.close(rl - rl0, scale_u / L, 1e-7, "beam_units_own_axes_r", f"{kind} {dim}D L={L:g}: tip rotation in own axes {rl} vs {rl0}", **sig)
+    rec.nontrivial(True)
+
+
+SUBS.append(Sub("beam_units", check_beam_units, enum=enum_beam_units,
+                doc="dimension x element type x beam theory x member length 1e-3 .. 1e5 at a generic inclination"))
